@@ -1,13 +1,13 @@
 (* C07 model: pedal/utilities/comparisons.py equality_test / _are_sequences_equal / _set_contains / _are_sets_equal -
    what assert_equal / assert_not_equal decide.
-   Values: scalars (int, bool, float incl. NaN, str, None), lists, tuples, sets and frozensets of scalars, dicts with scalar
-   keys.  A str is represented by two identifiers given by the harness: [ex] identifies the exact text, [nm] identifies its
+   Values: scalars (int, bool, float incl. NaN, str, bytes, None), lists, tuples, sets and frozensets of scalars, dicts with scalar
+   keys.  A str (and likewise a bytes object) is represented by two identifiers given by the harness: [ex] identifies the exact text, [nm] identifies its
    normal form (_normalize_string: case, punctuation and blank space removed) - the normaliser itself is not modelled.
    Floats are exact rationals (the decimal literals of the harness). *)
 From Coq Require Import ZArith QArith Qabs List Bool Arith.
 Import ListNotations.
 
-Inductive scalar := SInt (z : Z) | SBool (b : bool) | SFloat (q : Q) | SNaN | SStr (ex nm : nat) | SNone.
+Inductive scalar := SInt (z : Z) | SBool (b : bool) | SFloat (q : Q) | SNaN | SStr (ex nm : nat) | SBytes (ex nm : nat) | SNone.
 
 Inductive val :=
 | Sc (s : scalar)
@@ -33,6 +33,7 @@ Definition qof (s : scalar) : option Q :=
 Definition speq (a e : scalar) : bool :=
   match a, e with
   | SStr xa _, SStr xe _ => Nat.eqb xa xe
+  | SBytes xa _, SBytes xe _ => Nat.eqb xa xe      (* a bytes object never equals a str *)
   | SNone, SNone => true
   | _, _ => match qof a, qof e with Some x, Some y => Qeq_bool x y | _, _ => false end
   end.
@@ -48,6 +49,7 @@ Definition sc_eq (exact : bool) (delta : Q) (a e : scalar) : bool :=
   else
     match a, e with
     | SStr xa na, SStr xe ne => if exact then Nat.eqb xa xe else Nat.eqb na ne
+    | SBytes xa na, SBytes xe ne => if exact then Nat.eqb xa xe else Nat.eqb na ne
     | _, _ => speq a e      (* ints / bools by value, None; everything else differs *)
     end.
 
@@ -112,7 +114,7 @@ Fixpoint eqt (flip exact : bool) (delta : Q) (a e : val) {struct a} : bool :=
   | VDict da, VDict de =>
       (if flip then py_eq e a else py_eq a e) ||
       (* keys: _are_sets_equal(expected keys, actual keys); then for every key of EXPECTED:
-         equality_test(expected[key], actual[key]) - roles swapped; a key missing in actual raises KeyError = fails *)
+         equality_test(expected[key], actual[key]) - roles swapped; a key of expected that actual only has a near-equal partner for fails the comparison *)
       if flip
       then (* a is the expected dict, e the actual one *)
         sets_eq (sc_eq exact delta) (map fst da) (map fst de) &&
